@@ -32,6 +32,7 @@ def run(ctx, sess):
     ctx.rule('C05.13', 'next-item pointers of a repaired file lead to chunks: pointer repair cuts the link of every chain end it keeps - index, summary and data chunk (shared with C03.r)')
     ctx.rule('C05.15', 'track heads of a repaired file lead to chunks of the expected kind: what pointer repair changes in the head table in memory is written back on every success path (shared with C19.4) - a level that was dropped in memory only keeps its stale offset on disk, where the repair then appends chunks of another track')
     ctx.rule('C05.16', 'the reader of a repaired file returns the time-series entries a walk of the file finds: for every track kind whose index the repair does not rebuild, the reader starts at level 0 and follows the DATA chain (shared with C17.9)')
+    ctx.rule('C05.17', 'item lists of a repaired file end where the file ends: for each list head the reader keeps from its first scan (user data, source definitions, signal definitions) the repairing branch of jls_rd_open calls, after the truncation and before anything is appended, a walk that follows item_next and clears it on the last chunk that can still be read and belongs to the list - a link that survives a lost tail names an offset at which the repair then writes an INDEX')
     ctx.rule('C05.14', 'the recorded file length equals the file size also when the writer stopped after END: jls_rd_open remembers that the file header came without its length (TRUNCATED) and, on the path on which the END chunk is found, tests that before it succeeds (and then writes the header through a writable close)')
     ctx.rule('C05.11', 'FSR summary chunks carry what their header announces: the payload length handed to the summary writer is header + entry_count x the entry size that was stored in entry_size_bits (4 x f32 or 4 x f64, chosen by data type), not the size of a fixed struct type')
     ctx.rule('C05.5', 'previous-length bookkeeping: every successful append updates last_payload_length when at the end of the file (also for an empty payload)')
@@ -49,6 +50,7 @@ def run(ctx, sess):
     r11(ctx, P)
     r12(ctx, P)
     r14(ctx, P)
+    item_lists_rule(ctx, P, 'C05.17')
     from .common import relay
     from . import c19 as _c19, c17 as _c17
     relay(ctx, sess, _c19.run, {'C19.4': 'C05.15'}, minimum=1)
@@ -783,3 +785,43 @@ def r14(ctx, P):
                'the open tests the remembered TRUNCATED result before it succeeds' if (flags and w is None) else
                'jls_raw_open reports the missing length (TRUNCATED), the open tolerates it, finds the END chunk and succeeds: the file keeps a header length of 0 for good (the writer stopped between the END chunk and the header update of jls_wr_close)',
                w.render() if w else None)
+
+
+def item_lists_rule(ctx, P, rule):
+    fn = P.fn('jls_rd_open')
+    ctx.saw(fn, 1)
+    core_rec = P.record('jls_core_s')
+    heads = [fl['name'] for fl in core_rec['fields'] if fl['name'].endswith('_head') and 'jls_core_chunk_s' in (fl.get('t') or fl.get('type') or '')]
+    if not heads:
+        heads = [fl['name'] for fl in core_rec['fields'] if fl['name'] in ('user_data_head', 'source_head', 'signal_head')]
+    if len(heads) < 3:
+        raise AnalysisBroken('jls_core_s: list heads found: %s' % heads)
+    # walkers: functions that follow item_next in a loop and can clear it and rewrite the header
+    walkers = set()
+    for g in P.all_functions():
+        if g.file not in ('src/reader.c', 'src/core.c', 'src/track.c'):
+            continue
+        follows = any(ev.k in ('store', 'decl') and ev.e is not None and any(m.get('op') == 'member' and m.get('field') == 'item_next' for m in walk(ev.e)) for ev in g.events()) or \
+            any(b.cond is not None and any(m.get('op') == 'member' and m.get('field') == 'item_next' for m in walk(b.cond)) for b in g.blocks.values())
+        clears = any(ev.k == 'store' and strip_casts(ev.store_parts()[0]).get('op') == 'member' and strip_casts(ev.store_parts()[0]).get('field') == 'item_next' and
+                     ev.store_parts()[1] is not None and const_of(strip_casts(ev.store_parts()[1])) == 0 for ev in g.stores())
+        rewrites = any(c.callee in ('jls_core_update_chunk_header', 'jls_raw_wr_header') for c in g.calls())
+        reads = any(c.callee == 'jls_core_rd_chunk' for c in g.calls())
+        if follows and clears and rewrites and reads and g.params and any('jls_core_chunk_s' in (p_.get('t') or '') for p_ in g.params):
+            walkers.add(g.name)
+    tr = list(fn.calls('jls_bk_truncate'))
+    appenders = [c for c in fn.calls() if c.callee in ('jls_core_repair_fsr', 'jls_core_wr_end')]
+    for h in heads:
+        calls = [c for c in fn.calls(tuple(walkers)) if any(m.get('op') == 'member' and m.get('field') == h for a in c.args for m in walk(a))] if walkers else []
+        ok = False
+        why = 'no walk of the list that starts at %s' % h
+        for c in calls:
+            after_cut = all(find_path(fn, t, lambda e2, facts, c=c: 'target' if e2 is c else None, refine=False) is not None for t in tr) if tr else False
+            before_append = all(find_path(fn, a, lambda e2, facts, c=c: 'target' if e2 is c else None, refine=False) is None for a in appenders)
+            if after_cut and before_append:
+                ok = True
+            else:
+                why = 'the walk of %s is not placed between the truncation and the first append' % h
+        ctx.ob(rule, ok, fn.name, 'list that starts at %s is ended by the repair' % h, (calls[0] if calls else fn).where(),
+               'walked after the truncation and before the rebuild appends chunks' if ok else
+               why + ': when the lost tail held a chunk of this list that the previous one already links to, the link stays, the rebuild writes an INDEX at that offset, and the iteration over the repaired file ends with NOT_FOUND')
